@@ -530,7 +530,7 @@ Definition w_intro (scopes : list string) : inst :=
      i_fwdh := []; i_fwdc := []; i_up := []; i_payload := None; i_values := []; i_ttl := None;
      i_scopes := scopes; i_exprs := [] |}.
 
-Definition intro_ho : list string := ["Content-Type"; "Accept"].
+Definition intro_ho : list string := ["Accept"; "Content-Type"].
 
 (** C11-F2: a token cached through the prototype (no scope requirement) is
     accepted by the rule-level instance that requires the scope "admin" *)
